@@ -52,7 +52,11 @@ Variable cfg : config.
 Definition delivered_due (p : packet) : N :=
   match delivery_due cfg p with Some (_, a) => a | None => 0 end.
 
+(** packets are sent by users or by the agent contract *)
+Definition sender_ok (p : packet) : Prop := match p_sender p with User _ | Agent => True | _ => False end.
+
 Definition ghost_ok (p : packet) : Prop :=
+  sender_ok p /\
   match p_status p with
   | Sent => p_code p = 0 /\ p_delivered p = 0 /\ p_refunded p = 0 /\ p_feepaid p = 0
   | RecvOk => p_code p = 0 /\ p_delivered p = delivered_due p /\ p_refunded p = 0 /\ p_feepaid p = 0
@@ -99,39 +103,54 @@ Proof.
   - destruct Hin as [->|Hin]; [congruence|]. apply IH; assumption.
 Qed.
 
+Lemma fresh_ghost c cs0 h tok amt dst rcv cd cb ftok fee cs q :
+  transfer_chain cfg c cs0 h tok amt dst rcv cd cb ftok fee = Some (cs, q) ->
+  (match h with User _ | Agent => True | _ => False end) -> ghost_ok q.
+Proof.
+  intros E Hh. apply transfer_chain_spec in E as (_ & _ & _ & Hp & _). rewrite Hp. unfold ghost_ok, sender_ok; cbn. auto.
+Qed.
+
 Theorem step_ghost s o s' : wf cfg s -> Ghost s -> step cfg s o = Ok s' -> Ghost s'.
 Proof.
   intros [Hu _] HG H. unfold step, step_gen in H.
   destruct o as [c u tok amt dst rcv cd cb ftok fee|src dst sq|src dst sq|c u dst sq amt].
-  - destruct (transfer_chain cfg c (chains s c) u tok amt dst rcv cd cb ftok fee) as [[cs p]|] eqn:E; [|discriminate].
+  - destruct (transfer_chain cfg c (chains s c) (User u) tok amt dst rcv cd (if cb then CbBroken else CbNone) ftok fee) as [[cs p]|] eqn:E; [|discriminate].
     inv H. intros q Hq. cbn in Hq. apply in_app_or in Hq as [Hq|[<-|[]]]; [apply HG; exact Hq|].
-    apply transfer_chain_spec in E as (_ & _ & _ & Hp & _). rewrite Hp. unfold ghost_ok; cbn. auto.
+    eapply fresh_ghost; eauto. exact I.
   - destruct (lookup src dst sq (packets s)) as [p|] eqn:El; [|discriminate].
     destruct (is_sent p) eqn:Es; [|discriminate].
-    destruct (recv_chain cfg (chains s dst) p) as [[code cs] d] eqn:Er. inv H.
-    intros q Hq. cbn in Hq. apply in_update in Hq as (q0 & Hq0 & ->).
-    destruct (key_is src dst sq q0) eqn:Ek; [|apply HG; exact Hq0].
-    assert (q0 = p) as -> by (eapply uniq_key_unique; eauto).
-    specialize (HG p Hq0). unfold ghost_ok in *. unfold is_sent in Es.
-    destruct (p_status p) eqn:Est; try discriminate. destruct HG as (G1 & G2 & G3 & G4).
-    apply recv_chain_cases in Er as [(Hc & _ & ->)|(-> & cs1 & G & _)].
-    + cbn. apply N.eqb_neq in Hc. rewrite Hc. apply N.eqb_neq in Hc. auto.
-    + cbn. apply give_tokens_delivered in G. auto.
+    destruct (recv_chain cfg (chains s dst) p) as [[[code cs] d] onw] eqn:Er. inv H.
+    intros q Hq. cbn in Hq. apply in_app_or in Hq as [Hq|Hq].
+    + apply in_update in Hq as (q0 & Hq0 & ->).
+      destruct (key_is src dst sq q0) eqn:Ek; [|apply HG; exact Hq0].
+      assert (q0 = p) as -> by (eapply uniq_key_unique; eauto).
+      specialize (HG p Hq0). unfold ghost_ok in *. unfold is_sent in Es. destruct HG as [HS HG]. split; [exact HS|].
+      destruct (p_status p) eqn:Est; try discriminate. destruct HG as (G1 & G2 & G3 & G4).
+      apply recv_chain_cases in Er as [(Hc & _ & -> & _)|(-> & cs1 & G & _)].
+      * cbn. apply N.eqb_neq in Hc. rewrite Hc. apply N.eqb_neq in Hc. auto.
+      * cbn. apply give_tokens_delivered in G. auto.
+    + apply recv_chain_cases in Er as [(_ & _ & _ & ->)|(_ & cs1 & _ & [(-> & _)|(q' & T & a2 & feer & ref & rcv2 & dst2 & -> & Ht)])];
+        try (cbn in Hq; contradiction).
+      cbn in Hq. destruct Hq as [<-|[]]. eapply fresh_ghost; eauto. exact I.
   - destruct (lookup src dst sq (packets s)) as [p|] eqn:El; [|discriminate].
     destruct (is_received p) eqn:Es; [|discriminate].
     destruct (ack_chain cfg (chains s src) p) as [[cs r]|] eqn:Er; [|discriminate]. inv H.
     intros q Hq. cbn in Hq. apply in_update in Hq as (q0 & Hq0 & ->).
     destruct (key_is src dst sq q0) eqn:Ek; [|apply HG; exact Hq0].
     assert (q0 = p) as -> by (eapply uniq_key_unique; eauto).
-    specialize (HG p Hq0). unfold ghost_ok in *. unfold is_received in Es.
-    unfold ack_chain in Er. destruct (p_cb p); [|discriminate].
-    destruct (fees (chains s src) (p_dst p) (p_seq p)) as [ft f].
-    match type of Er with (if ?g then _ else _) = _ => destruct g end; [|discriminate].
+    specialize (HG p Hq0). unfold ghost_ok in *. unfold is_received in Es. destruct HG as [HS HG]. split; [exact HS|].
+    assert (Hgb : exists cs0 cs2, give_back cfg cs0 p = Some (cs2, r)).
+    { unfold ack_chain in Er. destruct (fees (chains s src) (p_dst p) (p_seq p)) as [ft f].
+      destruct (p_cb p); try discriminate;
+        (match type of Er with (if ?g then _ else _) = _ => destruct g end; [|discriminate]);
+        (match type of Er with match ?g with Some _ => _ | None => _ end = _ => destruct g as [[cs2 r2]|] eqn:Eg end; [|discriminate]);
+        injection Er as _ <-; eauto. }
+    destruct Hgb as (cs0 & cs2 & Hgb).
     destruct (p_status p) eqn:Est; try discriminate.
     + destruct HG as (G1 & G2 & G3 & G4). cbn. rewrite G1. cbn.
-      unfold give_back in Er. rewrite G1 in Er. cbn in Er. inv Er. repeat split; auto; lia.
+      unfold give_back in Hgb. rewrite G1 in Hgb. cbn in Hgb. inv Hgb. repeat split; auto; lia.
     + destruct HG as (G1 & G2 & G3 & G4). cbn. apply N.eqb_neq in G1 as G1'. rewrite G1'. cbn.
-      apply give_back_refund in Er as [-> Ha]; [|exact G1]. rewrite refund_due_on_ack. repeat split; auto; lia.
+      apply give_back_refund in Hgb as [-> Ha]; [|exact G1]. rewrite refund_due_on_ack. repeat split; auto; lia.
   - destruct (addfee_chain (chains s c) u dst sq amt) as [cs|] eqn:E; [|discriminate]. inv H. exact HG.
 Qed.
 
@@ -143,12 +162,12 @@ Theorem step_status s o s' src dst sq q :
 Proof.
   intros HG H Hl. unfold step, step_gen in H.
   destruct o as [c u tok amt dst0 rcv cd cb ftok fee|src0 dst0 sq0|src0 dst0 sq0|c u dst0 sq0 amt].
-  - destruct (transfer_chain cfg c (chains s c) u tok amt dst0 rcv cd cb ftok fee) as [[cs p]|]; [|discriminate].
+  - destruct (transfer_chain cfg c (chains s c) (User u) tok amt dst0 rcv cd (if cb then CbBroken else CbNone) ftok fee) as [[cs p]|]; [|discriminate].
     inv H. cbn. rewrite lookup_app, Hl. exists q. split; [reflexivity|]. split; [constructor|congruence].
   - destruct (lookup src0 dst0 sq0 (packets s)) as [p|] eqn:El; [|discriminate].
     destruct (is_sent p) eqn:Es; [|discriminate].
-    destruct (recv_chain cfg (chains s dst0) p) as [[code cs] d]. inv H. cbn.
-    rewrite (lookup_update _ _ _ _ _ _ _ _ (on_recv_key code d)), Hl.
+    destruct (recv_chain cfg (chains s dst0) p) as [[[code cs] d] onw]. inv H. cbn.
+    rewrite lookup_app, (lookup_update _ _ _ _ _ _ _ _ (on_recv_key code d)), Hl.
     destruct (key_is src0 dst0 sq0 q) eqn:Ek.
     + exists (on_recv code d q). split; [reflexivity|].
       destruct (lookup_in _ _ _ _ _ Hl) as [_ Hk]. apply key_is_true in Hk as (K1 & K2 & K3). apply key_is_true in Ek as (E1 & E2 & E3).
@@ -165,7 +184,7 @@ Proof.
       destruct (lookup_in _ _ _ _ _ Hl) as [_ Hk]. apply key_is_true in Hk as (K1 & K2 & K3). apply key_is_true in Ek as (E1 & E2 & E3).
       assert (src0 = src /\ dst0 = dst /\ sq0 = sq) as (-> & -> & ->) by (repeat split; congruence).
       rewrite Hl in El. inv El. split; [|auto].
-      destruct (lookup_in _ _ _ _ _ Hl) as [Hin _]. specialize (HG p Hin). unfold ghost_ok in HG.
+      destruct (lookup_in _ _ _ _ _ Hl) as [Hin _]. specialize (HG p Hin). unfold ghost_ok in HG. destruct HG as [_ HG].
       unfold is_received in Es. cbn. destruct (p_status p) eqn:Est; try discriminate.
       * destruct HG as (G1 & _). rewrite G1. cbn. constructor.
       * destruct HG as (G1 & _). apply N.eqb_neq in G1. rewrite G1. constructor.
@@ -256,8 +275,8 @@ Proof.
   intros H Hl' Hc c. unfold step, step_gen in H.
   destruct (lookup src dst sq (packets s)) as [p|] eqn:El; [|discriminate].
   destruct (is_sent p); [|discriminate].
-  destruct (recv_chain cfg (chains s dst) p) as [[code cs] d] eqn:Er. inv H. cbn in *.
-  rewrite (lookup_update _ _ _ _ _ _ _ _ (on_recv_key code d)), El in Hl'.
+  destruct (recv_chain cfg (chains s dst) p) as [[[code cs] d] onw] eqn:Er. inv H. cbn in *.
+  rewrite lookup_app, (lookup_update _ _ _ _ _ _ _ _ (on_recv_key code d)), El in Hl'.
   destruct (lookup_in _ _ _ _ _ El) as [_ Hk]. rewrite Hk in Hl'. inv Hl'. cbn in Hc.
   apply recv_chain_cases in Er as [(_ & -> & _)|(-> & _)]; [|congruence].
   unfold upd1. destruct (Nat.eqb_spec dst c) as [->|]; reflexivity.
@@ -314,14 +333,18 @@ Proof.
   destruct (is_received p); [|discriminate].
   destruct (ack_chain cfg (chains s src) p) as [[cs r]|] eqn:Er; [|discriminate]. inv H.
   destruct (lookup_in _ _ _ _ _ Hl) as [_ Hk]. apply key_is_true in Hk as (K1 & K2 & K3).
-  unfold ack_chain in Er. destruct (p_cb p); [|discriminate]. rewrite K2, K3 in Er. clear K1 K2 K3.
-  destruct (fees (chains s src) dst sq) as [ft f] eqn:Ef.
-  match type of Er with (if ?g then _ else _) = _ => destruct g end; [|discriminate].
-  unfold give_back in Er. rewrite Hc in Er. cbn [N.eqb] in Er. injection Er as <- <-.
-  cbn [chains set_chain]. unfold upd1 at 1.
+  assert (E : cs = move (set_ackst (chains s src) (upd_cs (ack_status (chains s src)) dst sq 1))
+                        (fst (fees (chains s src) dst sq)) PacketC Relayer (snd (fees (chains s src) dst sq))).
+  { unfold ack_chain in Er. rewrite K2, K3 in Er. destruct (fees (chains s src) dst sq) as [ft f].
+    unfold give_back in Er. rewrite Hc in Er. cbn [N.eqb] in Er.
+    destruct (p_cb p); try discriminate;
+      (match type of Er with (if ?g then _ else _) = _ => destruct g end; [|discriminate]);
+      cbn in Er; injection Er as <- _; reflexivity. }
+  clear Er K1 K2 K3. subst cs.
+  cbn [chains set_chain].
   split.
   { intros c Hne. unfold upd1. destruct (Nat.eqb_spec src c); [congruence|reflexivity]. }
-  unfold upd1. rewrite Nat.eqb_refl. cbn [fst snd].
+  unfold upd1. rewrite Nat.eqb_refl.
   repeat split; try reflexivity.
   - cbn. unfold upd_cs. rewrite Nat.eqb_refl, N.eqb_refl. reflexivity.
   - intros t h H1 H2. rewrite bal_move_other by assumption. reflexivity.
@@ -329,35 +352,60 @@ Proof.
   - rewrite bal_move_from by discriminate. reflexivity.
 Qed.
 
-(** Error acknowledgement on the source: ack status := 2 and the sender gets back exactly what was taken
-    from him (the escrowed amount, or the re-minted burned amount) in the token he sent. *)
+(** Error acknowledgement on the source: ack status := 2 and the sender -- or, for a packet sent on by the agent
+    contract, the refund address the agent was given -- gets back exactly what was taken (the escrowed amount, or
+    the re-minted burned amount) in the token that was sent. *)
 Theorem ack_error_refund s src dst sq s' p :
-  step cfg s (Ack src dst sq) = Ok s' -> lookup src dst sq (packets s) = Some p -> p_code p <> 0 ->
+  step cfg s (Ack src dst sq) = Ok s' -> lookup src dst sq (packets s) = Some p -> p_code p <> 0 -> sender_ok p ->
   (forall c, c <> src -> chains s' c = chains s c) /\
   ack_status (chains s' src) dst sq = 2 /\
-  bal (chains s' src) (p_token p) (User (p_sender p)) =
-    bal (chains s src) (p_token p) (User (p_sender p)) + refund_due cfg p.
+  bal (chains s' src) (p_token p) (refund_target p) =
+    bal (chains s src) (p_token p) (refund_target p) + refund_due cfg p.
 Proof.
-  intros H Hl Hc. unfold step, step_gen in H. rewrite Hl in H.
+  intros H Hl Hc Hso. unfold step, step_gen in H. rewrite Hl in H.
   destruct (is_received p); [|discriminate].
   destruct (ack_chain cfg (chains s src) p) as [[cs r]|] eqn:Er; [|discriminate]. inv H.
   destruct (lookup_in _ _ _ _ _ Hl) as [_ Hk]. apply key_is_true in Hk as (K1 & K2 & K3).
-  unfold ack_chain in Er. destruct (p_cb p); [|discriminate]. rewrite K2, K3 in Er.
-  destruct (fees (chains s src) dst sq) as [ft f] eqn:Ef.
-  match type of Er with (if ?g then _ else _) = _ => destruct g end; [|discriminate].
-  unfold give_back, refund_due in *. rewrite K1, K2 in *. clear K1 K2 K3.
   cbn [chains set_chain].
   split.
   { intros c Hne. unfold upd1. destruct (Nat.eqb_spec src c); [congruence|reflexivity]. }
   unfold upd1. rewrite Nat.eqb_refl.
-  apply N.eqb_neq in Hc as Hc'. rewrite !Hc' in Er. destruct (p_amount p =? 0); [discriminate|].
+  unfold ack_chain in Er. rewrite K2, K3 in Er. destruct (fees (chains s src) dst sq) as [ft f].
+  apply N.eqb_neq in Hc as Hc'. rewrite Hc' in Er.
+  unfold give_back, refund_due, refund_target in *. rewrite Hc', K1, K2 in *. clear K1 K2 K3.
+  unfold sender_ok in Hso.
+  destruct (p_amount p =? 0) eqn:Ea.
+  { destruct (p_cb p); try discriminate; (match type of Er with (if ?g then _ else _) = _ => destruct g end; discriminate). }
+  apply N.eqb_neq in Ea.
+  assert (Hr0 : forall k, k <> 0 -> (p_amount p * k =? 0) = false) by (intros k Hk; apply N.eqb_neq; lia).
   destruct (p_ori p) as [t0|].
-  - destruct (bound cfg src (p_token p) dst) as [[o k]|]; [|discriminate]. injection Er as <- <-. split.
-    + cbn. unfold upd_cs. rewrite Nat.eqb_refl, N.eqb_refl. reflexivity.
-    + cbn. unfold upd_bal. rewrite !Nat.eqb_refl. cbn. rewrite ?andb_false_r, ?Nat.eqb_refl. cbn. rewrite ?Nat.eqb_refl. reflexivity.
-  - match type of Er with (if ?g then _ else _) = _ => destruct g end; [|discriminate]. injection Er as <- <-. split.
-    + cbn. unfold upd_cs. rewrite Nat.eqb_refl, N.eqb_refl. reflexivity.
-    + cbn. unfold upd_bal. rewrite !Nat.eqb_refl. cbn. rewrite ?andb_false_r, ?Nat.eqb_refl. cbn. rewrite ?Nat.eqb_refl. reflexivity.
+  - destruct (bound cfg src (p_token p) dst) as [[o k]|];
+      [|destruct (p_cb p); try discriminate; (match type of Er with (if ?g then _ else _) = _ => destruct g end; discriminate)].
+    destruct (p_cb p) as [| |ref]; try discriminate;
+      (match type of Er with (if ?g then _ else _) = _ => destruct g end; [|discriminate]); injection Er as <- <-.
+    + split; [cbn; unfold upd_cs; rewrite Nat.eqb_refl, N.eqb_refl; reflexivity|].
+      destruct (p_sender p); try contradiction; cbn; unfold upd_bal; rewrite ?Nat.eqb_refl; cbn;
+        rewrite ?andb_false_r, ?Nat.eqb_refl; cbn; rewrite ?Nat.eqb_refl; reflexivity.
+    + split; [destruct (p_amount p * k =? 0); cbn; unfold upd_cs; rewrite Nat.eqb_refl, N.eqb_refl; reflexivity|].
+      destruct (p_amount p * k =? 0) eqn:E0.
+      * apply N.eqb_eq in E0. rewrite E0.
+        destruct (p_sender p) as [u| | | | |]; try contradiction; cbn; unfold upd_bal; rewrite ?Nat.eqb_refl; cbn;
+          rewrite ?andb_false_r; cbn; try (destruct (Nat.eqb_spec u ref); subst; cbn); lia.
+      * destruct (p_sender p) as [u| | | | |]; try contradiction; cbn; unfold upd_bal; rewrite ?Nat.eqb_refl; cbn;
+          rewrite ?andb_false_r, ?Nat.eqb_refl; cbn; rewrite ?Nat.eqb_refl; cbn;
+          try (destruct (Nat.eqb_spec u ref); subst; cbn; rewrite ?Nat.eqb_refl; cbn); lia.
+  - destruct (p_cb p) as [| |ref]; try discriminate;
+      (match type of Er with (if ?g then _ else _) = _ => destruct g end; [|discriminate]);
+      (match type of Er with match (if ?g then _ else _) with Some _ => _ | None => _ end = _ => destruct g end; [|discriminate]);
+      injection Er as <- <-.
+    + split; [cbn; unfold upd_cs; rewrite Nat.eqb_refl, N.eqb_refl; reflexivity|].
+      destruct (p_sender p); try contradiction; cbn; unfold upd_bal; rewrite ?Nat.eqb_refl; cbn;
+        rewrite ?andb_false_r, ?Nat.eqb_refl; cbn; rewrite ?Nat.eqb_refl; reflexivity.
+    + apply N.eqb_neq in Ea as Ea'. rewrite Ea'.
+      split; [cbn; unfold upd_cs; rewrite Nat.eqb_refl, N.eqb_refl; reflexivity|].
+      destruct (p_sender p) as [u| | | | |]; try contradiction; cbn; unfold upd_bal; rewrite ?Nat.eqb_refl; cbn;
+        rewrite ?andb_false_r, ?Nat.eqb_refl; cbn; rewrite ?Nat.eqb_refl; cbn;
+        try (destruct (Nat.eqb_spec u ref); subst; cbn; rewrite ?Nat.eqb_refl; cbn); lia.
 Qed.
 
 End WithCfg.
